@@ -563,7 +563,11 @@ func ext۰reflect۰Value۰MapKeys(fr *frame, args []value) value {
 	m := rV2V(args[0]).(*smap)
 	var keys []value
 	if m != nil {
-		for _, p := range m.order(fr.i) {
+		var site *ssa.Function
+		if fr.caller != nil {
+			site = fr.caller.fn
+		}
+		for _, p := range m.order(fr.i, site) {
 			keys = append(keys, makeReflectValueF(mt.Key(), m.keys[p], rV2F(args[0])&rflagRO))
 		}
 	}
